@@ -17,6 +17,32 @@ import pysyncobj.serializer as S
 class State(object):
     node = None      # callable returning the SimNode currently stepping
     on_kill = None
+    parent_pid = os.getpid()
+    gate_dir = None  # where forked dump writers wait for the scheduler's go (and learn whether / when they are killed)
+    child_writes = 0
+    child_kill_at = None
+    child_gated = False
+
+
+def _child_gate():
+    """runs in a forked dump-writer child: wait until the scheduler lets it go; it may be told to die at its k-th write"""
+    import time as _t, signal
+    if not State.child_gated:
+        State.child_gated = True
+        path = os.path.join(State.gate_dir or '/tmp', 'child_%d.go' % os.getpid())
+        t0 = _t.time()
+        while not os.path.exists(path):
+            _t.sleep(0.002)
+            if _t.time() - t0 > 120:
+                os._exit(3)
+        try:
+            k = int(builtins.open(path).read().strip() or '0')
+        except Exception:
+            k = 0
+        State.child_kill_at = k if k > 0 else None
+    State.child_writes += 1
+    if State.child_kill_at is not None and State.child_writes >= State.child_kill_at:
+        os.kill(os.getpid(), signal.SIGKILL)
 
 
 def _cur():
@@ -24,6 +50,9 @@ def _cur():
 
 
 def _write_allowed():
+    if os.getpid() != State.parent_pid:
+        _child_gate()
+        return True
     n = _cur()
     if n is None:
         return True
